@@ -158,30 +158,40 @@ class MasterSim(object):
     def _install_observers(self):
         sim = self
 
-        orig_create = loader_mod.Loader.create_server
-
-        def create_server(this, servername, data):
-            server = orig_create(this, servername, data)
-            if this is sim.master:
-                sim._pending_decl = (servername, dict(data))
-            return server
+        def declare(this, servername):
+            """Ground truth of a server = its ZooKeeper record at the moment
+            the master (re)loads it, parsed by the reference parsers."""
+            if this is not sim.master:
+                return
+            if servername not in this.servers:
+                sim.decl_servers.pop(servername, None)
+                return
+            data = zkutils.get_default(sim.admin, z.path.server(servername))
+            if not data:
+                return
+            sim.decl_servers[servername] = {
+                'cap': ref_vector(data),
+                'label': data.get('partition') or '_default',
+                'traits': sim.trait_mask(data.get('traits', [])),
+                'trait_names': list(data.get('traits', [])),
+                'parent': data.get('parent'),
+            }
 
         orig_load = loader_mod.Loader.load_server
 
         def load_server(this, servername):
-            sim._pending_decl = None
             res = orig_load(this, servername)
-            if this is sim.master:
-                if servername in this.servers and sim._pending_decl and \
-                        sim._pending_decl[0] == servername:
-                    data = sim._pending_decl[1]
-                    sim.decl_servers[servername] = {
-                        'cap': ref_vector(data),
-                        'label': data.get('partition') or '_default',
-                        'traits': sim.trait_mask(data.get('traits', [])),
-                        'trait_names': list(data.get('traits', [])),
-                    }
+            declare(this, servername)
             return res
+
+        orig_reload = loader_mod.Loader.reload_server
+
+        def reload_server(this, servername):
+            res = orig_reload(this, servername)
+            declare(this, servername)
+            return res
+
+        loader_mod.Loader.reload_server = reload_server
 
         orig_remove = loader_mod.Loader.remove_server
 
@@ -222,16 +232,14 @@ class MasterSim(object):
 
         self._patches = [
             (loader_mod.Loader, 'load_identity_groups', orig_groups),
-            (loader_mod.Loader, 'create_server', orig_create),
+            (loader_mod.Loader, 'reload_server', orig_reload),
             (loader_mod.Loader, 'load_server', orig_load),
             (loader_mod.Loader, 'remove_server', orig_remove),
             (loader_mod.Loader, 'load_allocations', orig_allocs),
         ]
-        loader_mod.Loader.create_server = create_server
         loader_mod.Loader.load_server = load_server
         loader_mod.Loader.remove_server = remove_server
         loader_mod.Loader.load_allocations = load_allocations
-        self._pending_decl = None
 
     def close(self):
         for klass, name, orig in self._patches:
@@ -850,6 +858,15 @@ class MasterSim(object):
         if target > now:
             self.clock.advance(target - now)
 
+    def op_renew(self, idx):
+        """Lease renewal request on a placed instance (nothing in this
+        snapshot sets the flag; driven as scheduler_test.test_renew does)."""
+        name = self._pick_app(idx)
+        app = self.master.cell.apps.get(name) if name else None
+        if app is not None and app.server:
+            app.renew = True
+            self.master.up_to_date = False
+
     # master periodic tasks and control
     def op_tickreboots(self):
         self._guard(self.master.tick_reboots)
@@ -881,7 +898,7 @@ class MasterSim(object):
         self.restart_master()
         self.count('restarts')
 
-    MASTER_OPS = ('enq', 'proc', 'ev', 'sched', 'cycle', 'restart',
+    MASTER_OPS = ('renew', 'enq', 'proc', 'ev', 'sched', 'cycle', 'restart',
                   'tickreboots', 'checkreboot', 'integrity', 'adv', 'adv_ret',
                   'crashcycle', 'crashrestart')
 
